@@ -45,7 +45,7 @@ def cases(tier, seed):
             # a configured back-off far above anything afkak might think reasonable: f(n) is the caller's business
             out.append(dict(kind="enum", seed=seed * 31 + b, refuse=nref + 1, sync=bool(nref % 2), cut=["time", 0.0],
                             policy=[(16.0, 2.5), (31.0, 0.0), (7.0, 6.0), (61.0, 1.0)][nref]))
-    npat = {"quick": 200, "thorough": 5000}[tier]
+    npat = {"quick": 240, "thorough": 6000}[tier]
     out += [dict(kind="pattern", seed=seed * 1000037 + i) for i in range(npat)]
     return out
 
@@ -240,6 +240,27 @@ def check_log(res, tr):
             res.violate("close/deferred-fired-%d-times" % close_fired, "close()'s Deferred must fire exactly once",
                         fired=tr.close_fired)
         res.ob("close_once")
+    # an answered request is not sent again: once a complete frame bearing its id has been handed to the client on a
+    # connection it had been written to, the request must not be written anywhere later
+    import struct as _st
+    writes = {}
+    for c in tr.net.conns:
+        for (wt, rid, _f) in bc.client_frames(c):
+            writes.setdefault(rid, []).append((wt, c.id))
+    for c in tr.net.conns:
+        for (ft, frame) in bc.delivered_frames(c):
+            if len(frame) < 4:
+                continue
+            rid = _st.unpack(">i", frame[:4])[0]
+            w_here = [wt for (wt, cid) in writes.get(rid, ()) if cid == c.id and wt <= ft]
+            if not w_here or rid not in tr.reqs:
+                continue
+            later = [(wt, cid) for (wt, cid) in writes.get(rid, ()) if wt > ft + 1e-9 and cid != c.id]
+            if later:
+                res.violate("resend/answered-request-sent-again", "a complete reply to the request was delivered to the "
+                            "client at %.4f (connection %d), yet the request was written again at %.4f (connection %d)"
+                            % (ft, c.id, later[0][0], later[0][1]), rid=rid)
+            res.ob("answered_not_resent")
     if nontrivial:
         res.sig = sig(sc["end"], len(sc["ids"]), sc.get("cuts"), tuple(tr.clock.trace))
     if res.sample is None:
